@@ -83,6 +83,23 @@ CLAIMED = {
                      "hook answers, otherwise exactly one true evaluation returned unchanged, appended once, retrained exactly when due.",
                 note=TRUST + " Objective, predict hook and train() are assumed contracts (user / subclass code).",
                 tech="deductive verification: postconditions over ghost call-log state, all paths incl. exceptional exits (pyvc/z3)"),
+    "C03": dict(cat="proof", ref="5/C03",
+                text="nondominated_cmp is proved to be the comparison by (front number ascending, crowding distance descending over the "
+                     "extended reals) and a total preorder (three lemmas); nondominated_truncate is proved to return min(size, |pool|) "
+                     "distinct designs of the de-duplicated pool such that no cut design is better than a kept one; the binary tournament "
+                     "never returns the candidate with the worse front number nor, at equal fronts, the dominated one; crowding_distance "
+                     "keeps the members, gives boundary members of every objective an infinite distance and every interior member the "
+                     "sum of normalised neighbour gaps (per-objective step law), for fronts and pools of any size.",
+                note=TRUST + " sorted() with a proved total preorder and list(set()) are library models; float division uninterpreted.",
+                tech="deductive verification: total-preorder lemmas, set/sort library models, loop invariants with ghost extreme witnesses (pyvc/z3)"),
+    "C02": dict(cat="exploration", ref="5/C02",
+                text="BOUNDED, not proved: the complete rank specification (front 1 = exactly the non-dominated members; every member of a "
+                     "later front has all its dominators in earlier fronts and one in the previous front; nobody unranked) is evaluated on the "
+                     "real fast_nondominated_sorting over every sequence of n<=3 (quick) / n<=4 (thorough) points of a 3x3 grid (all order "
+                     "types and input orders) plus random populations n<=7. Deductively proved parts: the id lookup, crowding_distance per "
+                     "front, and three consequences of the specification as lemmas.",
+                note=TRUST + " The sorter itself is a bounded run-time contract evaluation (stated bound), never counted as proved.",
+                tech="bounded exhaustive run-time evaluation of the contract on the real function (stand-in); deductive verification of Selector.individual and lemmas (pyvc/z3)"),
 }
 NA = {
     "C07": "quantifies over thread interleavings; the contract verifier has sequential semantics only and no installed tool gives "
